@@ -4,6 +4,7 @@ package main
 // fills explicitly (CacheSync actions) and with the registered event handlers captured.
 
 import (
+	"time"
 	"flag"
 	"fmt"
 	"io"
@@ -137,6 +138,44 @@ func (e *Env) Sync(name string) (res string, detail string) {
 		return "err", err.Error()
 	}
 	return "ok", ""
+}
+
+// ProcessOne lets the real worker function take one item from the work queue (which must hold the set's key) and
+// reconcile it; whether the reconcile failed is read off the rate limiter's failure count, as the worker's only
+// observable reaction to an error is AddRateLimited (and Forget on success).
+func (e *Env) ProcessOne(name string) (res string, detail string) {
+	q := e.ssc.VerifQueue()
+	key := NS + "/" + name
+	before := q.NumRequeues(key)
+	defer func() {
+		if r := recover(); r != nil {
+			if _, ok := r.(crashSentinel); ok {
+				res, detail = "died", ""
+				return
+			}
+			res, detail = "panic", fmt.Sprint(r)
+		}
+	}()
+	e.ssc.VerifProcessNextWorkItem()
+	if after := q.NumRequeues(key); after > before {
+		return "err", "requeued"
+	} else if after != 0 {
+		return "err", "neither forgotten nor requeued"
+	}
+	return "ok", ""
+}
+
+// WaitQueued waits for a rate-limited re-add that is under way to arrive in the queue.
+func (e *Env) WaitQueued(max time.Duration) bool {
+	q := e.ssc.VerifQueue()
+	dl := time.Now().Add(max)
+	for q.Len() == 0 {
+		if time.Now().After(dl) {
+			return false
+		}
+		time.Sleep(200 * time.Microsecond)
+	}
+	return true
 }
 
 // ---- caches ----
